@@ -903,6 +903,16 @@ impl Gen {
             }
             return format!("{}[{}]", kind, subs.join(";"));
         }
+        if self.anns.len() >= 2 && self.rng.chance(5) {
+            // annotation selectors WITH offsets on annotations created one after the other (consecutive handles: the
+            // shape the range-compression of annotation selectors looks for); whole-text offsets mixed with partial ones
+            let kind = *self.rng.pick(&['M', 'C', 'X']);
+            let i = self.rng.below(self.anns.len() - 1);
+            let k = (2 + self.rng.below(2)).min(self.anns.len() - i);
+            let offs = ["b0:e0", "b0:e0", "b0:e-1", "b0:b1", "b1:e0", "e-1:e0"];
+            let subs: Vec<String> = (0..k).map(|j| format!("AO:{}:{}", self.anns[i + j], if j == 0 && self.rng.chance(60) { "b0:e0" } else { *self.rng.pick(&offs) })).collect();
+            return format!("{}[{}]", kind, subs.join(";"));
+        }
         if self.rng.chance(72) {
             return self.simple_target(&[0, 1, 1, 1, 1, 2, 2, 3, 3, 4, 5, 6]);
         }
